@@ -41,6 +41,11 @@ impl<'a> TokenBasedLuaGenerator<'a> {
             self.uncomment();
         }
 
+        if is_comment && self.output.ends_with('-') {
+            // a minus sign directly followed by `--` would become part of the comment
+            self.output.push(' ');
+        }
+
         self.push_str(content);
 
         match trivia.kind() {
